@@ -71,7 +71,16 @@ def _known():
 
 
 def run_config(cfg, transport='udp'):
-    r = make_rig(cfg, transport)
+    keep = False
+    if cfg.get('first_other'):
+        # another object (its own inverter: other model, other rated power) is created, detects its model and polls before
+        # this object exists - what one object learned about its model must not reach the sensor tables of the next
+        world.reset()
+        r0 = make_rig(cfg['first_other'], transport, keep_world=True)
+        if r0.call(r0.inv.read_device_info)[0] == 'ok':
+            r0.call(r0.inv.read_runtime_data)
+        keep = True
+    r = make_rig({k: v for k, v in cfg.items() if k != 'first_other'}, transport, keep_world=keep)
     inv = r.inv
     vio = []
     di = r.call(inv.read_device_info)
@@ -116,12 +125,15 @@ def job(cfgs):
         vio, nr, oc = run_config(cfg, transport)
         n += 1
         reads += nr
+        fo = cfg.get('first_other')
         states.add(h((cfg['family'], sorted(classes_of(serial_for(cfg['tag']))), cfg['power'], cfg['refused'],
-                      cfg['battery_mode'], oc)))
+                      cfg['battery_mode'], oc, (sorted(classes_of(serial_for(fo['tag']))), fo['power']) if fo else None)))
         for key, cause in vio:
             if cfg.get('redetect') and ('C14', key) not in _known():
                 # (a recorded finding is identified by its sensor and call site, whatever the history)
                 key += '/after-second-detection:' + cfg['redetect']
+            if cfg.get('first_other') and ('C14', key) not in _known():
+                key += '/another-object-detected-first'
             out.setdefault(key, []).append(dict(key=key, clause=key.split('/')[0],
                                                 replay=dict(cfg=cfg, transport=transport), detail=dict(cause=cause)))
     res = []
@@ -421,6 +433,23 @@ def run(tier, seed, rep):
     for red in ('silent', 'poll+silent', 'lost-first', 'poll+again'):
         cases += [(dict(c, redetect=red), 'udp') for i, c in enumerate(et_configs('quick', seed)) if i % 24 == 5]
         cases += [(dict(c, redetect=red), 'udp') for i, c in enumerate(dt_configs('quick', seed)) if i % 8 == 3]
+    # ordered pairs of objects: one representative tag per model class x rated-power class, every (first, second)
+    reps = {}
+    for c in list(et_configs('quick', seed)) + [dict(family='ET', tag='ETT', power=p, refused=(), battery_mode=2) for p in (3000, 15000)]:
+        if not c['refused'] and c['battery_mode'] == 2 and c['power'] in (3000, 14999, 15000, 25000):
+            reps[(c['tag'], c['power'])] = c
+    dreps = {}
+    for c in dt_configs('quick', seed):
+        if not c['refused'] and c['power'] == 3000:
+            dreps[c['tag']] = c
+    for a in reps.values():
+        for b in reps.values():
+            if a is not b:
+                cases.append((dict(b, first_other=a), 'udp'))
+    for a in dreps.values():
+        for b in dreps.values():
+            if a is not b:
+                cases.append((dict(b, first_other=a), 'udp'))
     k = 64
     total = reads = 0
     states = set()
